@@ -2298,6 +2298,18 @@ def M_poll_async_body(it, ctx, args, st):
     yield from it.invoke(cands[0], list(args), st, tenv, ctx.fr.depth + 1)
 
 
+def M_write_fmt_to_buffer(it, ctx, args, st):
+    """<BytesMut | String | Vec<u8> as fmt::Write / io::Write>::write_fmt(&mut self, args): the formatted text is appended"""
+    for s2, text in M_fmt_format(it, ctx, [args[1]], st):
+        if is_abnormal(text):
+            yield s2, text
+            continue
+        if not isinstance(text, BStr):
+            raise Unsupported('write_fmt of an opaque Display text into a byte buffer')
+        bm_append(s2, args[0], text)
+        yield s2, it.ok(UNIT)
+
+
 def M_char_to_string(it, ctx, args, st):
     c = args[0] if not isinstance(args[0], Ptr) else st.deref_all(args[0])
     if not it.feasible(st, z3.ULT(c, 128)) or it.feasible(st, z3.UGE(c, 128)):
@@ -2333,6 +2345,7 @@ MODELS = [
     (r'<' + P + r'(?:result::Result|option::Option)<.*> as ' + P + r'iter::IntoIterator>::into_iter', M_res_into_iter, lambda it, ctx, args, st: isinstance(args[0], Enum) or (isinstance(args[0], Ptr) and isinstance(st.deref_all(args[0]), Enum))),
     (r'<(?:[iu](?:8|16|32|64|128|size)|f64|f32|bool) as ' + P + r'str::FromStr>::from_str', M_from_str_trait),
     (P + r'str::<impl str>::split_once::<char>', M_str_split_once_char),
+    (r'<(?:bytes::BytesMut|' + P + r'string::String|' + P + r'vec::Vec<u8>) as ' + P + r'(?:fmt|io)::Write>::write_fmt', M_write_fmt_to_buffer),
     (r'<\(?dyn ' + P + r'error::Error[^>]*\)?>::is::<.*>', M_dyn_error_is),
     (P + r'slice::<impl \[.*\]>::first', M_slice_first_last(False)), (P + r'slice::<impl \[.*\]>::last', M_slice_first_last(True)),
     (P + r'str::<impl str>::find::<(?:&str|char)>', M_str_find(False)), (P + r'str::<impl str>::rfind::<(?:&str|char)>', M_str_find(True)),
